@@ -136,8 +136,9 @@ impl LruPageCache {
             );
             
             // Copy data from the page
-            let page_end = offset_in_page + bytes_to_copy;
-            if page_end <= page_data.len() {
+            // (a short last page contributes its valid prefix, clipped at EOF)
+            let page_end = std::cmp::min(offset_in_page + bytes_to_copy, page_data.len());
+            if offset_in_page < page_end {
                 result_buffer.extend_from_slice(&page_data[offset_in_page..page_end]);
             }
             
